@@ -98,7 +98,36 @@ func parse(rel string) *ast.File {
 	if err != nil {
 		return nil
 	}
+	stripHooks(f)
 	return f
+}
+
+// stripHooks removes the calls of the verification event hooks (`verifhook.X(…)`, `defer verifhook.X(…)`,
+// see /verif/fixes/hook-conc.diff) so that the shapes are matched on the code proper.
+func stripHooks(f *ast.File) {
+	isHook := func(s ast.Stmt) bool {
+		switch v := s.(type) {
+		case *ast.ExprStmt:
+			if c, ok := v.X.(*ast.CallExpr); ok {
+				return strings.HasPrefix(str(c.Fun), "verifhook.")
+			}
+		case *ast.DeferStmt:
+			return strings.HasPrefix(str(v.Call.Fun), "verifhook.")
+		}
+		return false
+	}
+	ast.Inspect(f, func(x ast.Node) bool {
+		if b, ok := x.(*ast.BlockStmt); ok {
+			out := b.List[:0:0]
+			for _, s := range b.List {
+				if !isHook(s) {
+					out = append(out, s)
+				}
+			}
+			b.List = out
+		}
+		return true
+	})
 }
 
 // findFunc finds a function (recv == "") or a method on recv / *recv.
